@@ -40,6 +40,10 @@ def signature(sp, project):
     for t, pol, _ in sp.conds:
         if project and mentions_proj(t):
             continue
+        ev = exhaustion_verdict(t, pol)
+        if ev is not None:
+            conds.append(("<input exhausted>", ev))
+            continue
         conds.append((repr(strip_lines(t)), pol))
     state = []
     for k, v in sp.state.items():
@@ -90,8 +94,8 @@ def run(ctx):
     fp = ctx.need("C18.I", p["next"])
     if fv is None or fp is None or paths_k is None:
         return
-    loop_p = next((n for n in fp.nodes if n.get("k") == "loop"), None)
-    paths_p = sym_paths(fp, loop_p["body"])
+    root_p, loop_p = iteration_node(fp)
+    paths_p = sym_paths(fp, root_p)
     # ---- I: equivalence under projection
     interfering = []
     for sp in paths_k:
